@@ -18,8 +18,24 @@ def run(c):
               "executed on real nodes; non-trivial = the behaviour made the node lock, skip a round or commit")
     c.assumptions = ["fault assumption of the model: the environment never completes +2/3 votes for an invalid block",
                      "4 validators of equal power, blocks with one part, static validator set (other shapes: C01/C04 network runs)",
-                     "block validity is abstracted to valid / invalid(AppHash); the validation clauses themselves are C13's"]
+                     "in KardiaNode block validity is abstracted to valid / invalid(AppHash); the validation clauses themselves "
+                     "(height, parent id, last commit against the previous set, application / validator hashes, median time) are "
+                     "specified in specs/partset/BlockFields.tla and bound here by the same replay C13 uses (join below)"]
     table = nc.proposer_table(c)
+    # the validity clause ("votes for and commits only valid extensions of its own chain"): every single-field
+    # change of a genuine block the BlockFields specification generates, through the real ValidateBlock
+    import checks.C13 as c13
+    invs = ["BaseValid", "AcceptedIsValid", "TamperEvidentId"]
+    for initial in (False, True):
+        dump = os.path.join(c.scratch, "bf-%d.dump" % initial)
+        tag = "join: MC_BlockFields %s" % ("initial height" if initial else "height 3")
+        r = c.tlc("partset", "bf.cfg", module="MC_BlockFields", files={"bf.cfg": c13.cfg_bf(initial, False, 2, False, invs)},
+                  dump_to=dump, timeout=3000, tag=tag)
+        c13.must_hold(c, r, tag)
+        g = c.gotest("partset", "TestBlockFields", env=dict(BF_DUMP=dump, BF_INITIAL=int(initial), BF_SCENES=2), timeout=3000,
+                     tag="join: real ValidateBlock on " + tag)
+        c.absorb(g)
+        os.remove(dump)
     # (a) exhaustive from every start state (initial state + scripted prefixes: locked, moved on while locked,
     #     valid block, waiting for a POL, next height, commit without block): invariants on every state,
     #     every transition replayed on a real node
